@@ -82,6 +82,7 @@ def perform (s : D) : Act → D
   | .handleNet => { s with log := (s.cur.1, .timeout) :: s.log }
   | .advance => { s with checkID := s.checkID + 1 }
   | .armCheck => { s with armed := true }
+  | .armTimeout => { s with tmo := some s.checkID }   -- (only OnCheck does it in the current source)
   | _ => s
 
 /-- a branch is over: top of the next iteration (stop check, then `currentID := checkID`) -/
